@@ -22,6 +22,7 @@ pub mod c13;
 pub mod c14;
 pub mod c15;
 pub mod c16;
+pub mod c19;
 
 pub const ALL: &[Prop] = &[
     Prop { id: "C01", run: c01::run, parts: c01::parts },
@@ -39,4 +40,5 @@ pub const ALL: &[Prop] = &[
     Prop { id: "C14", run: c14::run, parts: c14::parts },
     Prop { id: "C15", run: c15::run, parts: c15::parts },
     Prop { id: "C16", run: c16::run, parts: c16::parts },
+    Prop { id: "C19", run: c19::run, parts: c19::parts },
 ];
